@@ -67,7 +67,7 @@ var propTable = map[string]*propSpec{
 			"(R-ARITY) no registered Go function reads an argument slot beyond its declared arity without a guard; (R-POS) every normalised string position is proved in range before it indexes/slices the subject or is handed to the matcher/unpacker; " +
 			"(R-DIVZERO) every integer division has a divisor excluded from zero on every path; (R-PANIC) every explicit panic is below a recover that keeps its type on every call chain from the API, or is a table-listed internal invariant; " +
 			"(R-NARROW) every integer narrowing in the code generator is range-checked (implementation limits become compile errors, not wrapped encodings); (R-RECURSION) every call-graph cycle reachable from the API passes a structurally recognised depth guard or is table-listed with its bound; " +
-			"(R-ALLOC) every computed-size allocation is bounded by memory held, charged first, and — for lengths decoded from input — compared with the input left.",
+			"(R-ALLOC) every computed-size allocation is bounded by memory held, charged first, and — for lengths decoded from input — compared with the input left; a size the program chooses, or computes with + * <<, is proved non-negative on every path to the allocation (through callers and closure captures), since make/Grow/Repeat panic on a negative count.",
 		NotDecided: "absence of every Go run-time error (nil dereference, arbitrary index expressions, map writes): Go's type system does not give that and a general bounds prover is out of reach; what the VM does with a hand-forged binary chunk that decodes successfully (there is no bytecode verifier in the repository); out-of-memory caused by a legitimately huge program-chosen size in a context without limits.",
 		Assumptions: []string{
 			"VTA+CHA call graph over-approximates calls; callbacks from standard-library frames are followed only when the entering module function can have supplied the callee (it converts a value of that type to an interface, references the function, or forwards interface/function parameters)",
@@ -116,7 +116,7 @@ var propTable = map[string]*propSpec{
 	"C18": {
 		ID:          "C18",
 		Rules:       []string{"R-FINALIZE", "R-LOCKSET"},
-		Explanation: "Decides the ordering/ownership content of 'finalisers and resource release run exactly once, in order, inside their context': finalise-extraction precedes release-extraction in PopContext, runPendingFinalizers and Runtime.Close; extracted releases always reach releaseResources and never depend on the context status; CallContext runs an isolated context's finalisers before popping it; ClonePool hands out an entry for finalising/release only under the 'not yet' flag test and marks it in the same step; its lists are touched only under its mutex (the Go finaliser runs on another goroutine).",
+		Explanation: "Decides the ordering/ownership content of 'finalisers and resource release run exactly once, in order, inside their context': finalise-extraction precedes release-extraction in PopContext, runPendingFinalizers and Runtime.Close; extracted releases always reach releaseResources and never depend on the context status; CallContext runs an isolated context's finalisers before popping it; ClonePool hands out an entry for finalising/release only under the 'not yet' flag test and marks it in the same step; its lists are touched only under its mutex (the Go finaliser runs on another goroutine). (g) Marking: a table or userdata only gets a non-nil metatable through (*Runtime).SetRawMetatable, which registers it with the finaliser pool on every path (the one exemption being a metatable without __gc), userdata born with a metatable come from NewUserDataValue which marks them, and the Lua-callable setmetatable functions cannot return successfully without having gone through the marking call — a second setmetatable re-marks.",
 		NotDecided:  "exactly-once over histories that involve Go's garbage collector (which objects become unreachable when), reverse marking order (sort key values), and that a value is never finalised while still reachable.",
 		Assumptions: []string{"the default pool in every build configuration is one of the two analysed implementations (ClonePool; UnsafePool is selected only by a build tag and is out of the claim)"},
 	},
